@@ -20,6 +20,7 @@ HEALPix nest children of p are p*s .. p*s+s-1, neighbours from ducc0.healpix).  
 enumerated and every oracle relation of the property is evaluated on all of them.
 """
 import itertools
+import os
 
 import numpy as np
 from hypothesis import strategies as st
@@ -39,10 +40,10 @@ RULE = ("Generated Grid / OpenGrid (padding) / SimpleOpenGrid / LogGrid / Broken
         "the children/parent maps of the neighbouring levels; neighborhood(i,w) == i+offsets wrapped (periodic), "
         "clipped (open), ducc0 neighbours (HEALPix); sum of children volumes <= parent volume*(1+1e-12); level "
         "totals non-increasing; all maps independent of the batch shape of the index array.")
-LEVEL_TEXT = ("Exploration with exhaustive finite sweeps: every 1-D Grid with shape0<=5, depth<=2, splits in "
-              "{1..4}; every 1-D OpenGrid with shape0<=7, depth<=2, splits in {1,2,3}, paddings in {0,1,2}; every "
-              "2-D Grid with shape0 in {1,2,3}^2, one level, splits in {1,2,3}^2 (each plain and flattened, "
-              "serial and nest); a fixed list of HEALPix-bearing grids; random compositions of all grid classes "
+LEVEL_TEXT = ("Exploration with exhaustive finite sweeps: every 1-D Grid with shape0<=4, depth<=2, splits in "
+              "{1..4}; every 1-D OpenGrid with shape0<=5, depth<=2, splits in {1,2,3}, paddings in {0,1,2} (each "
+              "plain and flattened); every 2-D Grid with shape0 in {1,2,3}^2, one level, splits in {1,2,3}^2 (plain "
+              "and flattened, serial/nest alternating); a fixed list of HEALPix-bearing grids; random compositions of all grid classes "
               "are sampled.  Every index of every level is checked, so a violation anywhere on a generated grid "
               "is found with certainty.")
 LEVEL_NOTE = ("Trusted base: NumPy integer arithmetic, ducc0.healpix.Healpix_Base.neighbors (nest). The reference "
@@ -753,7 +754,7 @@ def _classes(rec, ref, stats):
         base = base.fl if isinstance(base, SparseRef) else base.under
     cl.append(f"{base.ndim}axes")
     if stats["padded"]:
-        cl.append("padded_indices_present")
+        cl.append("unrefined_indices_present")
     if stats["free"]:
         cl.append("hp_missing_neighbours" if "hp" in base.kinds else "neighbours_outside_mapping")
     ws = [x for w in rec.get("windows", []) for x in w]
@@ -853,7 +854,7 @@ def axis_grid(draw, depth, max0, maxsize, allow=("grid", "open", "simple", "log"
         if all(s == 1 for s in splits):
             splits[0] = 2
     else:
-        splits = [[draw(st.sampled_from([1, 2, 2, 3])) for _ in range(nd)] for _ in range(depth)]
+        splits = [[draw(st.sampled_from([1, 2, 2, 3])) for _ in range(nd)] for _ in range(depth)] if depth > 0 else 2
     d = {"k": kind, "min_shape": ms, "window": window, "splits": splits, "depth": depth, "size0": None, "dist": None}
     if kind == "simple":
         dk = draw(st.sampled_from(["none", "scalar", "axis"]))
@@ -903,20 +904,86 @@ def _has_open(d):
     return any(k in ("open", "simple", "log", "blog", "hplogr", "hpblogr") for k in desc_kinds(d))
 
 
+def level_sizes(d):
+    """sizes of all levels of a structured desc (exact for grid/open; for the SimpleOpenGrid family the documented
+    'conservative estimate' of shape0 is replicated - only used to keep generated grids small)"""
+    k = d["k"]
+    if k in ("grid", "open"):
+        cur = np.array(d["shape0"], dtype=np.int64)
+        out = [int(np.prod(cur))]
+        for l, sp in enumerate(d["splits"]):
+            pd = np.array(d["padding"][l]) if k == "open" else 0
+            cur = np.array(sp) * (cur - 2 * pd)
+            out.append(int(np.prod(cur)))
+        return out
+    if k in ("simple", "log", "blog"):
+        ms = np.array(d["min_shape"], dtype=np.float64)
+        nd, depth = ms.size, d["depth"]
+        sp = np.array(d["splits"], dtype=np.int64)
+        sp = np.broadcast_to(sp, (depth, nd)) if sp.ndim != 2 else sp
+        pad = np.broadcast_to((np.array(d["window"], dtype=np.int64) - 1) // 2, (depth, nd))
+        cur = np.ceil(ms / np.prod(sp, axis=0, initial=1) + (2 + 2 / np.min(sp, axis=0, initial=1))
+                      * np.max(pad, axis=0, initial=0) + 1).astype(np.int64)
+        out = [int(np.prod(cur))]
+        for si, pd in zip(sp, pad):
+            cur = si * (cur - 2 * pd)
+            out.append(int(np.prod(cur)))
+        return out
+    if k == "mgrid":
+        parts = [level_sizes(x) for x in d["grids"]]
+        return [int(np.prod([p[l] for p in parts])) for l in range(len(parts[0]))]
+    raise ValueError(k)
+
+
+def truncate(d, depth):
+    """the same grid with only the first `depth` refinement levels"""
+    d = dict(d)
+    k = d["k"]
+    if k in ("grid", "open"):
+        d["splits"] = d["splits"][:depth]
+        if k == "open":
+            d["padding"] = d["padding"][:depth]
+    elif k == "mgrid":
+        d["grids"] = [truncate(x, depth) for x in d["grids"]]
+    else:
+        d["depth"] = depth
+        if isinstance(d["splits"], list) and d["splits"] and isinstance(d["splits"][0], list):
+            d["splits"] = d["splits"][:depth] if depth > 0 else 2
+    return d
+
+
+def fit(d, maxsize):
+    """shrink a structured desc until every level has at most maxsize indices"""
+    depth = len(level_sizes(d)) - 1
+    while max(level_sizes(d)) > maxsize:
+        if d["k"] == "mgrid" and len(d["grids"]) > 2:
+            d = dict(d, grids=d["grids"][:-1])
+        elif depth > 0:
+            depth -= 1
+            d = truncate(d, depth)
+        elif d["k"] == "mgrid":
+            d = d["grids"][0]
+        else:
+            break
+    return d
+
+
 @st.composite
 def dense_recipes(draw, tier):
     maxsize = 500 if tier == "quick" else 2500
     depth = draw(st.sampled_from([0, 1, 1, 2, 2, 2, 3, 3]))
+    wrap = draw(st.sampled_from(["none", "none", "none", "serial", "serial", "nest", "sparse"]))
+    allow = ("grid",) if wrap in ("nest", "sparse") else ("grid", "open", "simple", "log", "blog")
     top = draw(st.sampled_from(["axis", "axis", "mgrid", "mgrid"]))
     if top == "axis":
-        base = draw(axis_grid(depth, 6, maxsize))
+        base = draw(axis_grid(depth, 6, maxsize, allow=allow))
     else:
         nc = draw(st.integers(2, 3))
         per = int(round(maxsize ** (1.0 / nc)))
-        base = {"k": "mgrid", "grids": [draw(axis_grid(depth, 4, per, maxdim=2 if nc == 2 else 1)) for _ in range(nc)]}
-    wrap = draw(st.sampled_from(["none", "none", "serial", "serial", "nest", "nest", "sparse"]))
-    if wrap in ("nest", "sparse") and _has_open(base):
-        wrap = "serial" if draw(st.booleans()) else "none"
+        base = {"k": "mgrid", "grids": [draw(axis_grid(depth, 4, per, allow=allow, maxdim=2 if nc == 2 else 1))
+                                        for _ in range(nc)]}
+    base = fit(base, maxsize)
+    depth = len(level_sizes(base)) - 1
     d = base
     if wrap in ("serial", "nest"):
         d = {"k": "flat", "grid": base, "ordering": wrap}
@@ -937,41 +1004,65 @@ def _wrap_variants(base, periodic):
     return out
 
 
+SWEEP_SHARDS = 8
+
+
+def _cluster_for_shards(cases, shards):
+    """the runner hands shard s the cases [s::n]; re-order so that each shard receives a contiguous block of the
+    natural enumeration order (similar array shapes => the eagerly compiled jax kernels are reused)"""
+    n = max(1, min(shards, int(os.environ.get("VERIF_NPROC", "16"))))
+    m = -(-len(cases) // n)
+    blocks = [cases[i * m:(i + 1) * m] for i in range(n)]
+    out = []
+    for j in range(m):
+        row = [blk[j] for blk in blocks if j < len(blk)]
+        if len(row) < n:            # the last block is shorter: the remaining cases go to the tail
+            out.extend(row)
+            continue
+        out.extend(row)
+    return out
+
+
 def sweep_cases(tier, seed):
     out = []
     wins1 = [[3], [2], [5]]
+    top_p, top_o = (4, 5) if tier == "quick" else (6, 8)
     # 1-D periodic
-    for n0 in range(1, 6):
+    for n0 in range(1, top_p + 1):
         for depth in range(0, 3):
             for sp in itertools.product([1, 2, 3, 4], repeat=depth):
                 base = {"k": "grid", "shape0": [n0], "splits": [[s] for s in sp]}
                 for i, d in enumerate(_wrap_variants(base, True)):
-                    out.append({"desc": d, "windows": [wins1[(n0 + depth + i) % 3], [4]], "probes": [n0], "tier": tier})
+                    out.append({"desc": d, "windows": [wins1[(n0 + depth + i) % 3], [4]], "probes": [n0], "tier": tier,
+                                "batch": i == 0})
     # 1-D open
-    for n0 in range(1, 8):
+    for n0 in range(1, top_o + 1):
         for depth in range(0, 3):
             for sp in itertools.product([1, 2, 3], repeat=depth):
                 for pd in itertools.product([0, 1, 2], repeat=depth):
                     cur, ok = n0, True
-                    for s, p in zip(sp, pd):
-                        cur = s * (cur - 2 * p)
+                    for s_, p_ in zip(sp, pd):
+                        cur = s_ * (cur - 2 * p_)
                         if cur <= 0:
                             ok = False
                             break
                     if not ok:
                         continue
-                    base = {"k": "open", "shape0": [n0], "splits": [[s] for s in sp], "padding": [[p] for p in pd]}
+                    base = {"k": "open", "shape0": [n0], "splits": [[s_] for s_ in sp], "padding": [[p_] for p_ in pd]}
                     for i, d in enumerate(_wrap_variants(base, False)):
                         out.append({"desc": d, "windows": [wins1[(n0 + i) % 3]], "probes": [n0 + 1], "tier": tier,
-                                    "batch": (n0 + depth) % 2 == 0})
+                                    "batch": i == 0})
     # 2-D periodic, one level
     for s0 in itertools.product([1, 2, 3], repeat=2):
         for sp in itertools.product([1, 2, 3], repeat=2):
             base = {"k": "grid", "shape0": list(s0), "splits": [list(sp)]}
-            for i, d in enumerate(_wrap_variants(base, True)):
+            var = _wrap_variants(base, True)
+            if tier == "quick":      # plain + one of the two flat orderings (alternating)
+                var = [var[0], var[1 + (s0[0] + s0[1] + sp[0] + sp[1]) % 2]]
+            for i, d in enumerate(var):
                 out.append({"desc": d, "windows": [[3, 2] if i % 2 else [2, 3]], "probes": [s0[0] + 2 * s0[1]], "tier": tier,
-                            "batch": i == 0})
-    return out
+                            "batch": i == 0 and (s0[0] + sp[1]) % 2 == 0})
+    return _cluster_for_shards(out, SWEEP_SHARDS)
 
 
 def hp_cases(tier, seed):
@@ -990,19 +1081,24 @@ def hp_cases(tier, seed):
              {"k": "sparse", "grid": hp(2, [4]), "sel": [[1, 2, 3, 17, 30, 47], [0, 1, 3, 5]]}]
     g1 = {"k": "grid", "shape0": [2], "splits": [[2], [3]]}
     o1 = {"k": "open", "shape0": [5], "splits": [[2], [1]], "padding": [[1], [2]]}
-    prods = [{"k": "mgrid", "grids": [hp(1, [4, 4]), g1]},
-             {"k": "mgrid", "grids": [g1, hp(1, [4, 4])]},
+    g2 = {"k": "grid", "shape0": [3], "splits": [[2]]}
+    prods = [{"k": "mgrid", "grids": [hp(1, [4, 1]), g1]},
+             {"k": "mgrid", "grids": [g2, hp(1, [4])]},
              {"k": "mgrid", "grids": [hp(1, [4, 1]), o1]},
-             {"k": "flat", "grid": {"k": "mgrid", "grids": [hp(1, [4, 4]), g1]}, "ordering": "nest"},
+             {"k": "flat", "grid": {"k": "mgrid", "grids": [hp(1, [4]), g2]}, "ordering": "nest"},
              {"k": "flat", "grid": {"k": "mgrid", "grids": [o1, hp(1, [4, 1])]}, "ordering": "serial"},
+             {"k": "sparse", "grid": {"k": "mgrid", "grids": [hp(1, [4]), g2]}, "sel": [[0, 5, 7, 20, 33, 35], [0, 1, 4]]},
              {"k": "hplogr", "nside0": 1, "depth": 1, "rn": 4, "rmin": 1.0, "rmax": 8.0, "rw": 3},
-             {"k": "hplogr", "nside0": 1, "depth": 2, "rn": 3, "rmin": 0.5, "rmax": 2.0, "rw": 3},
              {"k": "hplogr", "nside0": 2, "depth": 0, "rn": 5, "rmin": 0.25, "rmax": 16.0, "rw": 5},
+             {"k": "hplogr", "nside0": 1, "depth": 0, "rn": 9, "rmin": 0.5, "rmax": 2.0, "rw": 1},
              {"k": "hpblogr", "nside0": 1, "depth": 1, "rn": 6, "rmin": 1.0, "rlin": 2.0, "rmax": 8.0, "rw": 3},
-             {"k": "hpblogr", "nside0": 1, "depth": 2, "rn": 3, "rmin": 0.5, "rlin": 0.5, "rmax": 4.0, "rw": 3}]
+             {"k": "hpblogr", "nside0": 2, "depth": 0, "rn": 7, "rmin": 0.5, "rlin": 0.5, "rmax": 4.0, "rw": 3}]
     if tier != "quick":
         descs += [hp(4, [4]), hp(2, [4, 4]), hp(8, []), hp(1, [16, 4]), hp(4, [1, 4])]
-        prods += [{"k": "mgrid", "grids": [hp(2, [4, 4]), g1]},
+        prods += [{"k": "mgrid", "grids": [hp(1, [4, 4]), g1]},
+                  {"k": "mgrid", "grids": [g1, hp(2, [4, 4])]},
+                  {"k": "hplogr", "nside0": 1, "depth": 2, "rn": 3, "rmin": 0.5, "rmax": 2.0, "rw": 3},
+                  {"k": "hpblogr", "nside0": 1, "depth": 2, "rn": 3, "rmin": 0.5, "rlin": 0.5, "rmax": 4.0, "rw": 3},
                   {"k": "hplogr", "nside0": 2, "depth": 2, "rn": 6, "rmin": 1.0, "rmax": 100.0, "rw": 3}]
     out = []
     for i, d in enumerate(descs + flats + prods):
@@ -1021,10 +1117,11 @@ def hp_all_cases(tier, seed):
 
 
 SUBS = [
-    Sub(name="sweep", check=check_desc, cases=sweep_cases, exhaustive=True, shards=6, jax=True,
-        rule="EXHAUSTIVE: every 1-D Grid (shape0 1..5, depth 0..2, splits in {1,2,3,4}), every valid 1-D OpenGrid "
-             "(shape0 1..7, depth 0..2, splits in {1,2,3}, paddings in {0,1,2}), every 2-D Grid (shape0 in {1,2,3}^2, "
-             "one level, splits in {1,2,3}^2), each plain, as FlatGrid serial and (periodic) FlatGrid nest; windows "
+    Sub(name="sweep", check=check_desc, cases=sweep_cases, exhaustive=True, shards=SWEEP_SHARDS, jax=True,
+        rule="EXHAUSTIVE: every 1-D Grid (shape0 1..4, depth 0..2, splits in {1,2,3,4}), every valid 1-D OpenGrid "
+             "(shape0 1..5, depth 0..2, splits in {1,2,3}, paddings in {0,1,2}), every 2-D Grid (shape0 in {1,2,3}^2, "
+             "one level, splits in {1,2,3}^2), each plain, as FlatGrid serial and (periodic) FlatGrid nest (2-D: one "
+             "of the two orderings, alternating); windows "
              "2..5; all indices of all levels; non-trivial = depth>=1, >=2 refined indices, >=2 children per index"),
     Sub(name="dense_random", check=check_desc, strategy=dense_recipes, quick=420, thorough=20000, shards=12, jax=True,
         rule="random Grid/OpenGrid (1-3 axes)/SimpleOpenGrid (1-2 axes, windows 1..5, scalar/per-axis/per-level "
